@@ -1074,6 +1074,51 @@ enum Work {
     Roundtrip(usize, u64, u64),
     /// shape, list length, first symbol
     Grammar(usize, usize, usize),
+    /// shape: sweep 3, every token length across the fixed-size buffers of the error path
+    Ladder(usize),
+}
+
+/// Sweep 3: one token of EVERY length 0..=max (plain, option-like, multi-byte, Debug-escaped bytes) alone, after each
+/// option literal (value position) and after a valid leading token; same oracle as sweep 2.  Covers every way the
+/// fixed 128-byte cause buffer of the error path can be straddled, which the 200-byte token of sweep 2 jumps over.
+fn ladder_chunk(sh: &Shape, helps: &[String], thorough: bool) -> Report {
+    let mut r = Report::new();
+    let max = if thorough { 1100 } else { 300 };
+    let mut lv = Vec::new();
+    levels(&sh.g, &mut lv);
+    let mut prefixes: Vec<Vec<Vec<u8>>> = vec![vec![]];
+    for l in &lv {
+        for o in &l.opts {
+            if let Some(lit) = o.lits().first() {
+                prefixes.push(vec![lit.as_bytes().to_vec()]);
+            }
+        }
+    }
+    prefixes.push(vec![b"7".to_vec()]);
+    prefixes.truncate(6);
+    for len in 0..=max {
+        let mut toks: Vec<Vec<u8>> = vec![vec![b'x'; len]];
+        if len >= 2 {
+            let mut t = vec![b'-'; 2];
+            t.extend(std::iter::repeat(b'y').take(len - 2));
+            toks.push(t);
+            // two-byte characters (and one odd byte): Debug/escape rendering changes the written length
+            let mut t: Vec<u8> = "é".as_bytes().iter().copied().cycle().take(len & !1).collect();
+            if len % 2 == 1 {
+                t.push(b'z');
+            }
+            toks.push(t);
+            toks.push(vec![0xff; len]);
+        }
+        for t in &toks {
+            for pre in &prefixes {
+                let mut list: Vec<&'static UnixStr> = pre.iter().map(|p| intern(p)).collect();
+                list.push(intern(t));
+                check_grammar(sh, helps, &list, &mut r);
+            }
+        }
+    }
+    r
 }
 
 fn c20(args: &Args) -> Report {
@@ -1114,9 +1159,15 @@ fn c20(args: &Args) -> Report {
             }
         }
     }
+    for (si, _) in shapes.iter().enumerate() {
+        if !helps[si].is_empty() {
+            work.push(Work::Ladder(si));
+        }
+    }
     let mut r = par_items(work.len(), args.seed, |i| match work[i] {
         Work::Roundtrip(si, c, n) => roundtrip_chunk(&shapes[si], &helps[si], args.thorough, c, n),
         Work::Grammar(si, len, f) => grammar_chunk(&shapes[si], &helps[si], len, f),
+        Work::Ladder(si) => ladder_chunk(&shapes[si], &helps[si], args.thorough),
     });
     pre.merge(r);
     r = pre;
@@ -1129,7 +1180,9 @@ fn c20(args: &Args) -> Report {
         --help, 7, 12x, -5, empty, \\xff\\xfe, 200 bytes); no panic; Ok only if the independent left-to-right account of the list succeeds and the values are \
         among those it allows; a list that is a rendering without open choices must be Ok; every Err renders (Display, Debug) and starts with the help \
         text of a struct of the shape (of the addressed struct for a help request). Each (assignment, order, alias form) and each list is generated once; \
-        every case is non-trivial (it is parsed by the derived code)."
+        every case is non-trivial (it is parsed by the derived code). \
+        Sweep 3: one token of every length 0..=300 (thorough 1100) in four byte patterns, alone / in value position after each option literal / after a valid \
+        token, same oracle: straddles the fixed 128-byte cause buffer of the error path at every offset."
         .into();
     r.bound("shapes", shapes.len());
     r.bound("assignments_per_shape", Value::Object(space_sizes));
